@@ -31,7 +31,7 @@ import (
 )
 
 const (
-	maxTasks = 512
+	maxTasks = 8192
 
 	msgPark  = 1
 	msgDone  = 2
@@ -157,8 +157,10 @@ func (s *Sched) Close() {
 	syscall.Close(s.reqR)
 	syscall.Close(s.reqW)
 	for _, t := range s.tasks {
-		syscall.Close(t.wakeR)
-		syscall.Close(t.wakeW)
+		if t.wakeR >= 0 {
+			syscall.Close(t.wakeR)
+			syscall.Close(t.wakeW)
+		}
 	}
 }
 
@@ -170,7 +172,9 @@ func (s *Sched) NewGroup() int { s.nextGroup++; return s.nextGroup }
 
 func (s *Sched) newTask(name string, group, parent int) *task {
 	if len(s.tasks) >= maxTasks {
-		panic("sched: too many tasks")
+		// a limit of the harness, not a property of the code under test
+		fmt.Fprintf(os.Stderr, "HARNESS: sched: more than %d tasks in one run\n", maxTasks)
+		os.Exit(2)
 	}
 	var p [2]int
 	if err := syscall.Pipe(p[:]); err != nil {
@@ -414,6 +418,13 @@ func (s *Sched) wake(t *task, cmd, arg uint32) {
 		case msgDone:
 			m.done = true
 			m.parked = false
+			// the task never reads its wake pipe again: release the descriptors now, so that a run's
+			// descriptor use is bounded by the tasks alive at one time, not by the tasks ever created
+			if m.wakeR >= 0 {
+				syscall.Close(m.wakeR)
+				syscall.Close(m.wakeW)
+				m.wakeR, m.wakeW = -1, -1
+			}
 			s.progress++
 			// a task that dies inside Once.Do has completed the Once (sync.Once marks it done on panic)
 			for k, o := range s.onceOwner {
